@@ -421,15 +421,21 @@ func (s *sim) monOwnPrecommit(nd *node, in msg, m msg) {
 func (s *sim) monCommit(nd *node, in msg, m msg) {
 	if m.h != nd.h {
 		s.violation("agreement:commit-for-a-height-other-than-the-current-one", fmt.Sprintf("committed h%d while at h%d", m.h, nd.h), nd, in)
-		return
+		if s.violated {
+			return
+		}
 	}
 	if int(m.from) != s.c.proposer(m.h, m.r) {
 		s.violation("validity:committed-proposal-not-from-the-round-proposer", fmt.Sprintf("committed %s proposed by v%d in r%d whose proposer is v%d", valStr(m.val), m.from, m.r, s.c.proposer(m.h, m.r)), nd, in)
-		return
+		if s.violated {
+			return
+		}
 	}
 	if !validVal(m.val) {
 		s.violation("validity:committed-value-rejected-by-application", fmt.Sprintf("committed %s", valStr(m.val)), nd, in)
-		return
+		if s.violated {
+			return
+		}
 	}
 	rl := s.hl(nd, nd.h).rl(m.r)
 	has := false
@@ -440,19 +446,25 @@ func (s *sim) monCommit(nd *node, in msg, m msg) {
 	}
 	if !has {
 		s.violation("validity:committed-value-never-proposed-to-this-validator", fmt.Sprintf("committed %s (r%d) without a delivered proposal", valStr(m.val), m.r), nd, in)
-		return
+		if s.violated {
+			return
+		}
 	}
 	p := s.c.maskPower(nd.h, voteMask(rl.pc, m.val))
 	if !s.c.isQuorum(nd.h, p) {
 		s.violation("threshold:commit-below-quorum-of-precommits", fmt.Sprintf("committed %s (r%d) holding precommits of power %d, quorum %d of total %d", valStr(m.val), m.r, p, s.c.quorum(nd.h), s.c.total[s.c.hidx(nd.h)]), nd, in)
-		return
+		if s.violated {
+			return
+		}
 	} else if p == s.c.quorum(nd.h) {
 		s.st.nearQuorum++
 	}
 	if old, ok := s.decided[m.h]; ok && old != m.val {
 		s.violation("agreement:two-correct-validators-committed-different-values",
 			fmt.Sprintf("validator %d committed %s for height %d, validator %d committed %s", s.decider[m.h], valStr(old), m.h, nd.i, valStr(m.val)), nd, in)
-		return
+		if s.violated {
+			return
+		}
 	}
 	s.decided[m.h], s.decider[m.h], s.decRound[m.h] = m.val, nd.i, m.r
 	s.st.commits++
